@@ -500,6 +500,19 @@ impl Mon {
                 self.r.sample_kind(info.kind.name(), json!({"bank": bk.to_string(), "changed_fields": diff, "frozen": pre.flags & FLAG_FREEZE != 0}));
             }
         }
+        // a delegated role reaches the banks of its own group only: the metadata of a bank is written
+        // by the metadata admin of the group the bank belongs to (whatever group account was presented)
+        if info.kind == Kind::WriteBankMetadata {
+            if let Some((bk, Some(b), _)) = info.banks.first().map(|(k, p, q)| (k, p.as_ref(), q)) {
+                if let Some(g) = v.pre(&b.group).and_then(group_of) {
+                    self.r.eval();
+                    self.r.count("C12.bank_metadata_writes_judged");
+                    if !info.signers.contains(&g.metadata_admin) {
+                        self.r.violate("C12", "C12/WriteBankMetadata/written-by-somebody-who-is-not-the-metadata-admin-of-the-bank's-group", format!("bank {} of group {}: signers {:?}, that group's metadata admin is {}", bk, b.group, info.signers, g.metadata_admin));
+                    }
+                }
+            }
+        }
         // delegated instructions never touch user balances (purge: only the purged deposit)
         if allowed_fields(info.kind).is_some() && !matches!(info.kind, Kind::StartDeleverage | Kind::EndDeleverage) {
             for (ak, ap, aq) in &info.accts {
